@@ -552,7 +552,7 @@ func c06UpTable(c *kit.Ctx, m *storeModel, r3 *kit.Rule, upf *kit.Func) {
 			}
 			undec := ""
 			st.Fold = func(e ast.Expr, s kit.S) (bool, bool) {
-				return foldNum(info, e, func(x ast.Expr) (constant.Value, bool) {
+				return foldNumP(c.P, info, e, func(x ast.Expr) (constant.Value, bool) {
 					if sel, ok := ast.Unparen(x).(*ast.SelectorExpr); ok && sel.Sel.Name == "Value" {
 						if o := kit.ObjOf(info, sel.X); o != nil && tombVars[o] {
 							return constant.MakeFloat64(tv), true
@@ -622,6 +622,12 @@ func c06UpTable(c *kit.Ctx, m *storeModel, r3 *kit.Rule, upf *kit.Func) {
 // foldNum evaluates a boolean leaf over numbers after substitution;
 // understands math.Mod, data.FloatToBool and numeric conversions.
 func foldNum(info *types.Info, e ast.Expr, subst func(ast.Expr) (constant.Value, bool)) (bool, bool) {
+	return foldNumP(nil, info, e, subst)
+}
+
+// foldNumP is foldNum with access to the program (module helpers of one
+// parameter and a single return are inlined).
+func foldNumP(foldProg *kit.Prog, info *types.Info, e ast.Expr, subst func(ast.Expr) (constant.Value, bool)) (bool, bool) {
 	used := false
 	var ev func(x ast.Expr) (constant.Value, bool)
 	ev = func(x ast.Expr) (constant.Value, bool) {
@@ -679,10 +685,11 @@ func foldNum(info *types.Info, e ast.Expr, subst func(ast.Expr) (constant.Value,
 						return constant.MakeFloat64(af - bf*float64(int64(af/bf))), true
 					}
 				}
-			case q == dataPkg+".FloatToBool" && len(y.Args) == 1:
+			case len(y.Args) == 1 && foldProg != nil && foldProg.FuncOf(kit.Callee(info, y)) != nil:
 				if a, ok := ev(y.Args[0]); ok {
-					af, _ := constant.Float64Val(a)
-					return constant.MakeBool(af != 0), true
+					if v, ok := inlineSimpleFunc(foldProg.FuncOf(kit.Callee(info, y)), a); ok {
+						return v, true
+					}
 				}
 			case len(y.Args) == 1:
 				if tv, ok := info.Types[y.Fun]; ok && tv.IsType() {
